@@ -4,9 +4,10 @@
  */
 
 use crate::model::{
-    Commodity, Transaction, TxnAccount, TxnRefs,
+    Commodity, Posting, Transaction, TxnAccount, TxnRefs,
     price_entry::{PriceDb, PriceEntry},
 };
+use crate::tackler;
 use itertools::Itertools;
 use jiff::tz::TimeZone;
 use jiff::{Timestamp, Zoned};
@@ -16,6 +17,9 @@ use std::{
     sync::Arc,
 };
 use tackler_api::metadata::items::{PriceRecord, PriceRecords};
+
+/// Account, amount and used rate (if any) of posting after price conversion
+pub(crate) type ConvertedPosting = (TxnAccount, Decimal, Option<Decimal>);
 
 #[derive(Debug)]
 enum Cache<'p> {
@@ -89,22 +93,37 @@ impl PriceLookupCtx<'_> {
     pub(crate) fn convert_prices<'r, 's, 't>(
         &'s self,
         txn: &'t Transaction,
-    ) -> Box<dyn Iterator<Item = (TxnAccount, Decimal, Option<Decimal>)> + 'r>
+    ) -> Box<dyn Iterator<Item = Result<ConvertedPosting, tackler::Error>> + 'r>
     where
         's: 'r,
         't: 'r,
     {
         match &self.in_commodity {
             Some(comm) => Box::new(self.convert_prices_inner(txn, comm.clone())),
-            None => Box::new(txn.posts.iter().map(|p| (p.acctn.clone(), p.amount, None))),
+            None => Box::new(
+                txn.posts
+                    .iter()
+                    .map(|p| Ok((p.acctn.clone(), p.amount, None))),
+            ),
         }
+    }
+
+    /// The value of posting in target commodity, or error if it is out of range
+    fn value_of(p: &Posting, rate: Decimal) -> Result<Decimal, tackler::Error> {
+        p.amount.checked_mul(rate).ok_or_else(|| {
+            let msg = format!(
+                "Price conversion: value is out of range: {} {} @ {}",
+                p.amount, p.acctn.comm.name, rate
+            );
+            msg.into()
+        })
     }
 
     fn convert_prices_inner<'r, 's, 't>(
         &'s self,
         txn: &'t Transaction,
         in_commodity: Arc<Commodity>,
-    ) -> Box<dyn Iterator<Item = (TxnAccount, Decimal, Option<Decimal>)> + 'r>
+    ) -> Box<dyn Iterator<Item = Result<ConvertedPosting, tackler::Error>> + 'r>
     where
         's: 'r,
         't: 'r,
@@ -119,9 +138,9 @@ impl PriceLookupCtx<'_> {
                     Cache::Fixed(cache) => {
                         if let Some(c) = cache.get(&p.acctn.comm) {
                             acctn.comm = in_commodity.clone();
-                            amount *= c.1;
+                            amount = Self::value_of(p, c.1)?;
                         }
-                        (acctn, amount, None)
+                        Ok((acctn, amount, None))
                     }
                     Cache::Timed(comm_cache) => {
                         if let Some(cache) = comm_cache.get(&p.acctn.comm) {
@@ -134,20 +153,20 @@ impl PriceLookupCtx<'_> {
                             };
                             let rate = if let Some(i) = i {
                                 acctn.comm = in_commodity.clone();
-                                amount *= cache[i].eq_amount;
+                                amount = Self::value_of(p, cache[i].eq_amount)?;
                                 Some(cache[i].eq_amount)
                             } else {
                                 None
                             };
-                            (acctn, amount, rate)
+                            Ok((acctn, amount, rate))
                         } else {
                             // Cache miss
-                            (p.acctn.clone(), p.amount, None)
+                            Ok((p.acctn.clone(), p.amount, None))
                         }
                     }
                 }
             } else {
-                (p.acctn.clone(), p.amount, None)
+                Ok((p.acctn.clone(), p.amount, None))
             }
         }))
     }
